@@ -193,6 +193,18 @@ def t_accrue(world):
             a = k[2]
             ob.prove(eng, r, [okc], z3.And(a[0].e == now - lu0, a[1].e == (tas * asv) / W, a[2].e == (tls * lsv) / W, a[4].e == asv, a[5].e == lsv),
                      'kernel receives (now - last_update, total deposits, total debt, current share values)')
+            # ... and what it returns is exactly what is booked: both share values, and each fee bucket grows by its own (positive) fee figure
+            out = k[3].payload.get(1, {}).get(0) if isinstance(k[3], EnumV) else None
+            if not isinstance(out, StructV): ob.fail('kernel result not visible'); continue
+            SC = STRUCTS['InterestRateStateChanges']
+            o = lambda n: ev(eng.get_path(out, (('f', SC.index(n), I80),)))
+            pos = lambda x: z3.If(x > 0, x, 0)
+            b0 = lambda n: fsym('bank*', 'Bank', n)
+            ob.prove(eng, r, [okc], z3.And(cur('asset_share_value') == o('new_asset_share_value'), cur('liability_share_value') == o('new_liability_share_value')), 'the new share values are the kernel\'s', role='accrual-booking:share-values')
+            ob.prove(eng, r, [okc], z3.And(cur('collected_insurance_fees_outstanding') - b0('collected_insurance_fees_outstanding') == pos(o('insurance_fees_collected')),
+                                           cur('collected_group_fees_outstanding') - b0('collected_group_fees_outstanding') == pos(o('group_fees_collected')),
+                                           cur('collected_program_fees_outstanding') - b0('collected_program_fees_outstanding') == pos(o('protocol_fees_collected'))),
+                     'each fee bucket grows by exactly the kernel\'s figure for THAT bucket (insurance / group / program)', role='accrual-booking:fees')
     ob.need_witness()
     return [ob]
 
